@@ -66,7 +66,7 @@ def scenarios(rng, g):
     base = g.schema()
     doc = g.document(base)
     kind = rng.choice(['plain', 'plain', 'type', 'hash', 'string', 'context', 'subclass_rule', 'subclass_type', 'corrupt',
-                       'corrupt', 'corrupt', 'corrupt', 'nested_list', 'nested_list', 'registry', 'recursive', 'role', 'role'])
+                       'corrupt', 'corrupt', 'corrupt', 'nested_list', 'nested_list', 'registry', 'recursive', 'role', 'role', 'nest', 'nest'])
     e = lambda: rng.choice(['ctor', 'setter', 'update'])
     if kind == 'plain':
         other = g.schema()
@@ -119,6 +119,17 @@ def scenarios(rng, g):
                       ('V', {'f': {'type': 'dict', 'valuesrules': {'type': {'type': 'string'}}}}, {}, e(), None),
                       ('V', {'f': {'type': 'dict', 'valuesrules': {'type': 'string'}}}, {}, e(), None),
                       ('V', {'type': 'string'}, {}, e(), None)]
+    if kind == 'nest':
+        # a schema in shorthand / deprecated / spaced form, first on its own, then as a sub-schema
+        from .. import rewrite
+        short, applied = rewrite.to_shorthand(rng, base, p=0.8)
+        if not applied:
+            short = {'p': {'check with': families.k_pass, 'type': 'integer'}, 'q': {'anyof type': ['integer', 'string']},
+                     'r': {'type': 'dict', 'allow unknown': True}}
+        as_dict = {'f': {'type': 'dict', 'schema': copy.deepcopy(short)}}
+        as_list = {'l': {'type': 'list', 'schema': {'type': 'dict', 'schema': copy.deepcopy(short)}}}
+        return kind, [('V', copy.deepcopy(short), doc, e(), None), ('V', as_dict, {'f': doc}, e(), None),
+                      ('V', as_list, {'l': [doc]}, e(), None)]
     if kind == 'registry':
         # a reference is cached by name: redefine the name between two submissions (known finding F13f)
         ref = {'a': 'r0'}
